@@ -157,12 +157,38 @@ def render_text(doc, style):
         elif t["e"] == "close":
             out.append("</%s>" % stack.pop())
         else:
-            out.append("<%s>%s" % (t["tag"], uncps(t["text"])))
-            if style == "xml":
+            text = uncps(t["text"])
+            if style == "cdata" and "]]>" not in text:
+                text = "<![CDATA[" + text + "]]>"       # a CDATA section hands its content over verbatim
+            out.append("<%s>%s" % (t["tag"], text))
+            if style in ("xml", "cdata"):
                 out.append("</%s>" % t["tag"])
         if style == "sgml":
             out.append("\r\n")
     return "".join(out)
+
+
+def pad_strings(doc, schema, types, rnd, p=0.5):
+    """a copy of the token list in which character-data leaves get white space at their edges (kept by from_etree and
+    by a CDATA section; only plain wire text is trimmed); None if the document has no such leaf"""
+    out = []
+    stack = []
+    changed = False
+    for t in doc:
+        t = dict(t)
+        if t["e"] == "open":
+            stack.append(t["tag"])
+        elif t["e"] == "close":
+            stack.pop()
+        elif stack and stack[-1] in schema:
+            a = next((x for x in schema[stack[-1]]["attrs"] if x["tag"] == t["tag"] and x["k"] in ("elem", "lelem")), None)
+            if a is not None and a["ty"] and types[int(a["ty"][1:])]["k"] in ("str", "nag") and rnd.random() < p:
+                pad = rnd.choice([" ", "  ", "\n", "\t ", "\r\n"])
+                how = rnd.randrange(3)
+                t["text"] = (cps(pad) if how != 1 else []) + list(t["text"]) + (cps(pad) if how != 0 else [])
+                changed = True
+        out.append(t)
+    return out if changed else None
 
 
 def ev_doc(eid, doc, schema, route="etree", label="", expect="", twin=None):
@@ -174,7 +200,7 @@ def ev_doc(eid, doc, schema, route="etree", label="", expect="", twin=None):
         try:
             if route == "etree":
                 inst = Aggregate.from_etree(to_etree(doc))
-            elif route in ("xml", "sgml"):
+            elif route in ("xml", "sgml", "cdata"):
                 from ofxtools.Parser import TreeBuilder
                 b = TreeBuilder()
                 b.feed(render_text(doc, route))
